@@ -4,6 +4,12 @@ Four sub-checks.  The undirected three share one generator of *listed* graphs: w
 neighbour function returns for every node (one-sided listings, duplicates, self loops,
 shuffled), the node iteration order and a label scheme.  The oracles (vf/oracles/graphs_und.py)
 work on the symmetrised simple loop-free graph on indices 0..n-1.
+
+Every case is a short call history on ONE live graph (class Live): a mutable dict of neighbour lists, one
+neighbour-function object over it, `nodes` handed over as a fresh iterable of a generated kind (list, tuple,
+dict-keys view, set, generator, iter(list), range/map) for every call; after the first round of calls 0-2
+generated edits (add an edge from both ends / from one end, remove an edge) are applied in place and the same
+functions are called again with the same function object, judged against the oracle of the edited graph.
 """
 from __future__ import annotations
 
@@ -24,7 +30,11 @@ META = {
         "dense (complete minus a few pairs), shells (clique core + nodes hung onto 0-3 earlier nodes: nested cores) and "
         "forest+chords; every edge is listed from both sides, from one side only, or mixed; optional "
         "duplicate listings and self loops; neighbour lists, node order and index->label assignment are shuffled; labels all "
-        "ints, all strs or all tuples; neighbour function returns list/tuple/generator. Oracle on the symmetrised simple "
+        "ints, all strs or all tuples; neighbour function returns the stored list/a tuple/a generator; `nodes` is passed as "
+        "list/tuple/dict-keys/set/generator/iter/range-or-map (fresh per call); ~30% of the cases continue with 1-2 in-place "
+        "edits of the live graph (add edge both/one-sided, remove edge) and repeat the calls with the same neighbour-function "
+        "object, judged against the edited graph (bucket *:stale-after-graph-edit when the old answer is repeated). "
+        "Oracle on the symmetrised simple "
         "loop-free graph: cut vertices and bridges by deletion + BFS component count, core numbers by literal repeated "
         "deletion, modularity sum_c[L_c/m - gamma(d_c/2m)^2] in Fractions. PageRank: digraphs with dangling nodes, self "
         "loops, duplicate arcs, damping in [0.05,0.95], tol in {1e-6,1e-9}, max_iter small or ample; exact fixed point in "
